@@ -437,6 +437,42 @@ func c11Run(c c11Case) (v vVerdict) {
 				mustOK = true
 			}
 			err, bad = e.call("ConfigureTriggers", func() error { var r bool; return sc.ConfigureTriggers(fts, &r) })
+		case "hostiletrig":
+			// extreme but well-formed trigger settings: accepted or refused, never fatal (N selects the variant)
+			ts := TriggerState{}
+			switch st.N % 8 {
+			case 0:
+				ts.AutoTrigger, ts.AutoDelay = true, -time.Second
+			case 1:
+				ts.AutoTrigger, ts.AutoDelay = true, time.Duration(1<<63-1)
+			case 2:
+				ts.AutoTrigger, ts.AutoDelay, ts.AutoVetoRange = true, 0, 65535
+			case 3:
+				ts.EdgeTrigger, ts.EdgeRising, ts.EdgeFalling, ts.EdgeLevel = true, true, true, -1<<31
+			case 4:
+				ts.EdgeTrigger, ts.EdgeRising, ts.EdgeLevel = true, true, 1<<31-1
+			case 5:
+				ts.EdgeMulti, ts.EdgeMultiVerifyNMonotone, ts.EdgeMultiLevel = true, -5, -1<<31
+			case 6:
+				ts.EdgeMulti, ts.EdgeMultiVerifyNMonotone, ts.EdgeMultiMakeShortRecords = true, 1<<40, true
+			default:
+				ts.LevelTrigger, ts.LevelRising, ts.LevelLevel, ts.EdgeTrigger, ts.EdgeFalling, ts.EdgeLevel, ts.AutoTrigger = true, false, 65535, true, true, 0, true
+			}
+			chans := append([]int(nil), st.Chans...)
+			if len(chans) == 0 {
+				chans = []int{0}
+			}
+			fts := &FullTriggerState{ChannelIndices: chans, TriggerState: ts}
+			err, bad = e.call("ConfigureTriggers", func() error { var r bool; return sc.ConfigureTriggers(fts, &r) })
+			e.classes["hostile-trigger-values"] = true
+			err = fmt.Errorf("not judged")
+			if bad != nil {
+				return *bad
+			}
+			if f := e.progress(name); f != nil {
+				return *f
+			}
+			continue
 		case "lengths":
 			if st.Nsamp <= 0 || st.Npre <= 0 || st.Npre < 3 || st.Nsamp < st.Npre+1 {
 				mustErr = fmt.Sprintf("lengths %d/%d", st.Nsamp, st.Npre)
@@ -769,6 +805,14 @@ func c11GenStep(t *rapid.T, c *c11Case) c11Step {
 		n := rapid.IntRange(0, 3).Draw(t, "nidx")
 		for i := 0; i < n; i++ {
 			st.Chans = append(st.Chans, idx("chidx"))
+		}
+		return st
+	case k < 5:
+		st := c11Step{Op: "hostiletrig", N: rapid.IntRange(0, 7).Draw(t, "hostile")}
+		if rapid.Bool().Draw(t, "hostileall") {
+			for i := 0; i < c.Nchan; i++ {
+				st.Chans = append(st.Chans, i)
+			}
 		}
 		return st
 	case k < 6:
